@@ -179,7 +179,8 @@ struct Gen {
 		if (r.chance(1, 4)) seti(o, "warm", r.below(8));
 		return o;
 	}
-	Op gen_param(int client) { Op o = mk(client, "param"); seti(o, "o", r.below(4)); static const char *w[] = {"pprice", "dprice", "display", "scaling", "precision"}; std::string what = w[r.below(5)]; if (what == "display" && !ok("param:display")) what = "pprice"; set(o, "what", what); seti(o, "v", r.below(12)); return o; }
+	Op gen_param(int client) { Op o = mk(client, "param"); seti(o, "o", r.below(4)); static const char *w[] = {"pprice", "dprice", "display", "scaling", "precision"}; std::string what = w[r.below(5)]; if (what == "display" && !ok("param:display")) what = "pprice";
+		if (r.chance(1, 10) && ok("param:limits")) { static const char *lw[] = {"maxiter", "maxtime", "objulim", "objllim"}; what = lw[r.below(4)]; } set(o, "what", what); seti(o, "v", r.below(12)); return o; }
 	Op gen_invalid(int client) {
 		if (r.chance(1, 3)) { Op o = mk(client, "qinvalid"); seti(o, "o", r.below(4)); seti(o, "v", r.below(7 * 16 * 4)); return o; }
 		if (r.chance(1, 8)) { Op o = mk(client, "param"); seti(o, "o", r.below(4)); Fault f; f.kind = "api.invalid"; f.a["v"] = std::to_string(r.below(72)); o.faults.push_back(f); return o; }
